@@ -326,6 +326,40 @@ Proof. induction sched as [|ch sched IH]; intros m H; [exact H|]. cbn [MergeChan
 Lemma ready_init : forall la lb, ready_ok (minit la lb).
 Proof. intros la lb s. destruct s; cbn; discriminate. Qed.
 
+Lemma mpick_enabled : forall m : mstate, ready_ok m -> is_done (mc m) = false -> menabled m (mpick m) = true.
+Proof.
+  intros m Hr Hd. unfold mpick. destruct (wants (mc m)) as [s|] eqn:Hw; [|apply wants_done in Hw; congruence].
+  assert (Hws : wants_side m s = true) by (unfold wants_side; rewrite Hw; destruct s; reflexivity).
+  destruct (pph (get s m)) eqn:Hph; cbn [menabled]; rewrite Hph; auto.
+  pose proof (Hr s Hph) as Hne. destruct (pitems (get s m)); [congruence|exact Hws].
+Qed.
+
+Lemma mdrive_done : forall n (m : mstate), mmeasure m <= n -> ready_ok m -> is_done (mc (mdrive less stopf n m)) = true.
+Proof.
+  induction n as [|n IH]; intros m Hm Hr; cbn [mdrive].
+  - destruct (is_done (mc m)) eqn:Hd; [reflexivity|]. pose proof (mstep_enabled m _ (mpick_enabled m Hr Hd)). lia.
+  - destruct (is_done (mc m)) eqn:Hd; [exact Hd|]. pose proof (mstep_enabled m _ (mpick_enabled m Hr Hd)).
+    apply IH; [lia|apply ready_step; exact Hr].
+Qed.
+
+Lemma mdrive_sched : forall n (m : mstate), exists sched, mdrive less stopf n m = mrun m sched.
+Proof.
+  induction n as [|n IH]; intro m; cbn [mdrive]; [exists []; reflexivity|].
+  destruct (is_done (mc m)); [exists []; reflexivity|]. destruct (IH (mstep m (mpick m))) as (sched & H).
+  exists (mpick m :: sched). exact H.
+Qed.
+
+(* the protocol as a function of the schedule: the schedule, then the canonical completion *)
+Lemma merge_fun_eq_seq : forall sched,
+  let m1 := mrun (minit la0 lb0) sched in
+  clog (mc (mdrive less stopf (mmeasure m1) m1)) = merge_seq less stopf la0 lb0.
+Proof.
+  intros sched m1. destruct (mdrive_sched (mmeasure m1) m1) as (sched' & Hs).
+  pose proof (mdrive_done (mmeasure m1) m1 (le_n _) (ready_run sched _ (ready_init la0 lb0))) as Hd.
+  rewrite Hs in *. unfold m1 in *. unfold MergeChan.mrun in *. rewrite <- fold_left_app in *.
+  apply (merge_chan_eq_seq_lem (sched ++ sched')). exact Hd.
+Qed.
+
 (* from every reachable state the consumer can be brought to its end; while it has not returned some step is enabled;
    schedules of enabled steps are bounded *)
 Lemma merge_no_deadlock_lem : forall la lb sched,
@@ -341,3 +375,63 @@ Proof.
   - intros more H. pose proof (menabled_bounded more m H). lia.
 Qed.
 End MergeProofs.
+
+(* ---- a consumer that stops early is given a prefix of what a never-stopping consumer is given ------------------- *)
+Section MergeStopPrefix.
+Context {V : Type}.
+Variable less : V -> V -> res bool.
+Variable stopf : list (res V) -> bool.
+Notation never := (fun _ : list (res V) => false).
+Notation state := (list (res V) * list (res V) * @mcons V)%type.
+
+Definition crel1 (c1 c2 : @mcons V) : Prop := c1 = c2 \/ (is_done c1 = true /\ clog c1 = clog c2).
+
+Lemma emit_rel : forall h1 h2 log x next, crel1 (emit stopf h1 h2 log x next) (emit never h1 h2 log x next).
+Proof. intros. unfold emit. destruct (stopf (log ++ [x])); [right; split; reflexivity|left; reflexivity]. Qed.
+
+Lemma both_rel : forall a b log, crel1 (both less stopf a b log) (both less never a b log).
+Proof.
+  intros a b log. unfold both.
+  destruct (match a, b with ROk va, ROk vb => match less va vb with ROk t => (t, false) | RErr => (false, true) end | _, _ => (false, true) end) as [[|] err];
+    apply emit_rel.
+Qed.
+
+Lemma recv_rel : forall c x, crel1 (on_recv less stopf c x) (on_recv less never c x).
+Proof.
+  intros [a b w log] x. unfold on_recv. cbn [cw ha hb clog]. destruct w; try (left; reflexivity); try apply emit_rel.
+  - destruct b; [apply both_rel|left; reflexivity].
+  - destruct a; [apply both_rel|left; reflexivity].
+Qed.
+
+Lemma eof_rel : forall c, crel1 (on_eof stopf c) (on_eof never c).
+Proof.
+  intros [a b w log]. unfold on_eof. cbn [cw ha hb clog]. destruct w; try (left; reflexivity).
+  - destruct b; [apply emit_rel|left; reflexivity].
+  - destruct a; [apply emit_rel|left; reflexivity].
+Qed.
+
+Definition srel (t1 t2 : state) : Prop := t1 = t2 \/ (is_done (snd t1) = true /\ is_prefix (clog (snd t1)) (clog (snd t2))).
+
+Lemma lift_rel : forall la lb c1 c2, crel1 c1 c2 -> srel (la, lb, c1) (la, lb, c2).
+Proof. intros la lb c1 c2 [->|(Hd & Hl)]; [left; reflexivity|right; cbn [snd]; split; [exact Hd|rewrite Hl; apply prefix_refl]]. Qed.
+
+Lemma sstep_rel : forall t1 t2, srel t1 t2 -> srel (sstep less stopf t1) (sstep less never t2).
+Proof.
+  intros t1 t2 [->|(Hd & Hp)].
+  - destruct t2 as [[la lb] c]. unfold sstep. destruct (wants c) as [[|]|]; [| |left; reflexivity].
+    + destruct la; apply lift_rel; [apply eof_rel|apply recv_rel].
+    + destruct lb; apply lift_rel; [apply eof_rel|apply recv_rel].
+  - right. rewrite (sstep_done less stopf t1 Hd). split; [exact Hd|].
+    eapply prefix_trans; [exact Hp|apply sstep_prefix].
+Qed.
+
+Lemma siter_rel : forall n t1 t2, srel t1 t2 -> srel (siter less stopf n t1) (siter less never n t2).
+Proof. induction n as [|n IH]; intros t1 t2 H; [exact H|]. cbn [siter]. apply IH, sstep_rel, H. Qed.
+
+Lemma merge_seq_stop_prefix_lem : forall la lb, is_prefix (merge_seq less stopf la lb) (merge_seq less never la lb).
+Proof.
+  intros la lb. unfold merge_seq.
+  destruct (siter_rel (length la + length lb + 3) (la, lb, mcons_init) (la, lb, mcons_init) (or_introl eq_refl)) as [->|(_ & H)];
+    [apply prefix_refl|exact H].
+Qed.
+End MergeStopPrefix.
